@@ -86,6 +86,37 @@ theorem ntsStep_cases (c : NtsCfg) (st : NtsSt) (h : Host) :
     · simp only [List.length_append, List.length_cons, List.length_nil, Nat.zero_add, h5, if_false, List.take_zero,
         List.append_nil, Nat.add_zero, List.drop_zero, upd_self]
 
+/-- the loop body when the host's DC still needs replicas and its rack is known -/
+theorem ntsStep_active (c : NtsCfg) (st : NtsSt) (h : Host)
+    (h0 : rfOf c.rfs h.dc ≠ 0) (hlt : st.inDC h.dc < rfOf c.rfs h.dc) (h3 : h.rack ∈ c.racks h.dc) :
+    (h.rack ∈ st.seen h.dc ∧ (st.seen h.dc).length = (c.racks h.dc).length ∧ ntsStep c st h = stA st h) ∨
+    (h.rack ∉ st.seen h.dc ∧ ntsStep c st h = stB st h (drainCount c st h)) ∨
+    (h.rack ∈ st.seen h.dc ∧ (st.seen h.dc).length ≠ (c.racks h.dc).length ∧ ntsStep c st h = stC st h) := by
+  have h1 : ¬ st.inDC h.dc ≥ rfOf c.rfs h.dc := by omega
+  unfold ntsStep
+  by_cases h4 : h.rack ∈ st.seen h.dc
+  · by_cases h5 : (st.seen h.dc).length = (c.racks h.dc).length
+    · left; refine ⟨h4, h5, ?_⟩
+      simp [h0, h1, h3, h4, h5, stA]
+    · right; right; refine ⟨h4, h5, ?_⟩
+      simp [h0, h1, h3, h4, h5, stC]
+  · right; left; refine ⟨h4, ?_⟩
+    simp only [h0, h1, h3, h4, if_false, not_true_eq_false, not_false_eq_true, false_and, if_true]
+    unfold stB drainCount
+    by_cases h5 : (st.seen h.dc).length + 1 = (c.racks h.dc).length
+    · simp only [List.length_append, List.length_cons, List.length_nil, Nat.zero_add, h5, if_true, drain_eq]
+    · simp only [List.length_append, List.length_cons, List.length_nil, Nat.zero_add, h5, if_false, List.take_zero,
+        List.append_nil, Nat.add_zero, List.drop_zero, upd_self]
+
+theorem ntsStep_skip (c : NtsCfg) (st : NtsSt) (h : Host)
+    (hc : rfOf c.rfs h.dc = 0 ∨ st.inDC h.dc = rfOf c.rfs h.dc) : ntsStep c st h = st := by
+  unfold ntsStep
+  rcases hc with hc | hc
+  · simp [hc]
+  · by_cases h0 : rfOf c.rfs h.dc = 0
+    · simp [h0]
+    · simp [h0, hc]
+
 /-! ### invariants valid on every ring -/
 
 structure Good (c : NtsCfg) (st : NtsSt) : Prop where
